@@ -57,10 +57,12 @@ func checkC19(c *Ctx) {
 	guardsSelfTest(c, "R9.selftest")
 	enc := P.SSAFunc("applayer/fragmentation", "Encode")
 	ml := P.SSAFunc("applayer/fragmentation", "matrixLine")
-	if enc == nil || ml == nil {
-		r.Unknown("R1.guarded", "applayer/fragmentation.Encode", "", "anchor functions Encode and matrixLine exist", "missing")
+	if enc == nil {
+		r.Unknown("R1.guarded", "applayer/fragmentation.Encode", "", "anchor function Encode exists", "missing")
 		return
 	}
+	// R4 looks at one function by name; the lines Encode really uses are decided by R6.parity
+	r.Advisory("R4.rows", "R6.parity")
 	rule := func(kind string) string {
 		switch kind {
 		case "nil", "extern":
@@ -77,7 +79,11 @@ func checkC19(c *Ctx) {
 	}
 	c19Prefix(c, a, enc)
 	c19Count(c, a, enc)
-	c19Rows(c, E, ml)
+	if ml != nil {
+		c19Rows(c, E, ml)
+	} else {
+		r.Unknown("R4.rows", "applayer/fragmentation.matrixLine/row index", "", "a function matrixLine to look at", "no function of that name")
+	}
 	c19Helpers(c)
 	c19Parity(c)
 	c19Matrix(c)
